@@ -1692,16 +1692,10 @@ impl Database {
                 let column_types: Vec<_> =
                     table_def.columns().iter().map(|c| c.data_type()).collect();
 
-                let plan_has_filter = has_filter(physical_plan.root);
-                let plan_has_aggregate = has_aggregate(physical_plan.root);
-                let plan_has_window = has_window(physical_plan.root);
-                let plan_has_ordering = has_ordering(physical_plan.root);
-                let plan_has_non_simple_root = has_non_simple_root(physical_plan.root);
-                let needs_all_columns = plan_has_filter
-                    || plan_has_aggregate
-                    || plan_has_window
-                    || plan_has_ordering
-                    || plan_has_non_simple_root;
+                // ProjectExec resolves column references by their position in the table
+                // definition, so the scan must deliver complete rows: a scan pruned to the
+                // select list shifted every column (SELECT b FROM t(a, b) returned NULL).
+                let needs_all_columns = true;
                 let projections = if needs_all_columns {
                     None
                 } else {
